@@ -442,7 +442,7 @@ pub fn run(tier: &str, seed: u64, out: &mut Out) {
         }
         v
     };
-    let npairs = if search { 400 } else if thorough { 48 } else { 28 };
+    let npairs = if search { 160 } else if thorough { 48 } else { 28 };
     for &w in widths.iter() {
         for &sg in modes.iter() {
             let ps = gen_pairs(w, npairs, &mut rng);
